@@ -170,7 +170,7 @@ var noopHandler = http.HandlerFunc(func(http.ResponseWriter, *http.Request) {})
 // Construction routes. The documentation promises that all of them yield the same middleware (C06, C08, C09);
 // the HTTP-level checks therefore do not only look at freshly built middlewares but also at ones that carry
 // state left behind by earlier calls.
-const nRoutes = 7
+const nRoutes = 9
 
 var routeNames = [nRoutes]string{
 	"NewMiddleware(cfg)",
@@ -180,6 +180,50 @@ var routeNames = [nRoutes]string{
 	"NewMiddleware(cfg); SetDebug(true); Reconfigure(nil); request; Reconfigure(&cfg)",
 	"NewMiddleware(cfg); requests; Reconfigure(Config())",
 	"NewMiddleware(other); Reconfigure(&cfg) performed from inside ResponseWriter.Header() of an in-flight request",
+	"NewMiddleware(other); h := Wrap(handler); requests through h; Reconfigure(&cfg); later requests still go through h",
+	"new(Middleware); h := Wrap(handler) while passthrough; requests through h; Reconfigure(&cfg); later requests still go through h",
+}
+
+// forward lets a handler obtained from Wrap early serve a wrapped handler chosen later (same w and r are passed on).
+type forward struct{ target http.Handler }
+
+func (f *forward) ServeHTTP(w http.ResponseWriter, r *http.Request) {
+	if f.target != nil {
+		f.target.ServeHTTP(w, r)
+	}
+}
+
+type earlyWrap struct {
+	h   http.Handler
+	fwd *forward
+}
+
+// A built middleware together with the handler obtained from Wrap before the last reconfiguration (route 7 only).
+type built struct {
+	m     *cors.Middleware
+	early *earlyWrap
+}
+
+// wrap returns m.Wrap(inner) or, for a middleware built through route 7, the handler that was obtained from Wrap
+// before the reconfiguration, now forwarding to inner.
+func (b built) wrap(inner http.Handler) http.Handler {
+	if b.early != nil {
+		b.early.fwd.target = inner
+		return b.early.h
+	}
+	return b.m.Wrap(inner)
+}
+
+// buildViaH is buildVia that also hands back the early handler of route 7.
+func buildViaH(route int, lit CfgLit, debug bool, extra ...vlib.Req) (built, error) {
+	var early *earlyWrap
+	m, err := buildVia0(route, lit, debug, &early, extra...)
+	return built{m, early}, err
+}
+
+func buildVia(route int, lit CfgLit, debug bool, extra ...vlib.Req) (*cors.Middleware, error) {
+	var early *earlyWrap
+	return buildVia0(route, lit, debug, &early, extra...)
 }
 
 var routeOther = CfgLit{Origins: []string{"https://*.example:*", "http://*.example:*", "https://*.b:*", "https://*.a:*", "https://a.b", "https://a.example"}, Credentialed: true, TolInsecure: true, TolPSL: true,
@@ -216,8 +260,8 @@ func warmUp(m *cors.Middleware, extra ...vlib.Req) {
 	}
 }
 
-// buildVia builds a middleware for lit through the given route and then sets the debug mode.
-func buildVia(route int, lit CfgLit, debug bool, extra ...vlib.Req) (*cors.Middleware, error) {
+// buildVia0 builds a middleware for lit through the given route and then sets the debug mode.
+func buildVia0(route int, lit CfgLit, debug bool, early **earlyWrap, extra ...vlib.Req) (*cors.Middleware, error) {
 	cfg := lit.Config()
 	var m *cors.Middleware
 	var err error
@@ -234,6 +278,7 @@ func buildVia(route int, lit CfgLit, debug bool, extra ...vlib.Req) (*cors.Middl
 		}
 		m.SetDebug(!debug)
 		warmUp(m, extra...)
+		m.SetDebug(debug) // a successful Reconfigure keeps the debug mode: it is not set again afterwards
 		if route == 2 {
 			err = m.Reconfigure(&cfg)
 		} else {
@@ -258,9 +303,32 @@ func buildVia(route int, lit CfgLit, debug bool, extra ...vlib.Req) (*cors.Middl
 				h.ServeHTTP(w, r.HTTP())
 			}
 		}
+	case 7:
+		m, err = cors.NewMiddleware(routeOther.Config())
+		if err != nil {
+			return nil, fmt.Errorf("auxiliary configuration rejected: %w", err)
+		}
+		e := &earlyWrap{fwd: &forward{}}
+		e.h = m.Wrap(e.fwd)
+		*early = e
+		for _, r := range append([]vlib.Req{{Method: "GET", Hdr: map[string][]string{"Origin": {"https://a.example"}}}, {Method: "OPTIONS", Hdr: map[string][]string{"Origin": {"https://a.example"}, "Access-Control-Request-Method": {"PUT"}}}}, extra...) {
+			e.h.ServeHTTP(vlib.NewRec(), r.HTTP())
+		}
+		m.SetDebug(debug)
+		err = m.Reconfigure(&cfg)
+	case 8:
+		m = new(cors.Middleware)
+		e := &earlyWrap{fwd: &forward{}}
+		e.h = m.Wrap(e.fwd)
+		*early = e
+		for _, r := range append([]vlib.Req{{Method: "GET", Hdr: map[string][]string{"Origin": {"https://a.example"}}}, {Method: "OPTIONS", Hdr: map[string][]string{"Origin": {"https://a.example"}, "Access-Control-Request-Method": {"PUT"}}}}, extra...) {
+			e.h.ServeHTTP(vlib.NewRec(), r.HTTP())
+		}
+		err = m.Reconfigure(&cfg)
 	case 3:
 		m, err = cors.NewMiddleware(cfg)
 		if err == nil {
+			m.SetDebug(debug) // a failed Reconfigure changes nothing
 			warmUp(m, extra...)
 			bad := routeInvalid.Config()
 			if e := m.Reconfigure(&bad); e == nil {
@@ -280,6 +348,7 @@ func buildVia(route int, lit CfgLit, debug bool, extra ...vlib.Req) (*cors.Middl
 	case 5:
 		m, err = cors.NewMiddleware(cfg)
 		if err == nil {
+			m.SetDebug(debug)
 			warmUp(m, extra...)
 			err = m.Reconfigure(m.Config())
 		}
@@ -289,6 +358,24 @@ func buildVia(route int, lit CfgLit, debug bool, extra ...vlib.Req) (*cors.Middl
 	if err != nil {
 		return nil, err
 	}
-	m.SetDebug(debug)
+	if debug && (route == 0 || route == 1 || route == 4 || route == 8) {
+		// On these routes debug mode is off by documentation (after creation, on and after passthrough): it is only
+		// ever switched ON here, never "repaired" to off. On the other routes the mode was set before the last
+		// Reconfigure, which must keep it.
+		m.SetDebug(true)
+	}
 	return m, nil
+}
+
+// minimalFlags clears the DangerouslyTolerate* switches that the configuration does not need (as decided by
+// NewMiddleware itself): most users never set them, and code paths guarded by them differ.
+func minimalFlags(l CfgLit) CfgLit {
+	for _, f := range []func(*CfgLit){func(x *CfgLit) { x.TolPSL = false }, func(x *CfgLit) { x.TolInsecure = false }} {
+		t := l
+		f(&t)
+		if _, err := cors.NewMiddleware(t.Config()); err == nil {
+			l = t
+		}
+	}
+	return l
 }
